@@ -72,6 +72,10 @@ Definition tps : Z := 1000000.
 Definition younger_than (now secs : Z) (d : ddata) : bool := (now - secs * tps <? d_time d)%Z.
 Definition older_than (now secs : Z) (d : ddata) : bool := (d_time d <? now - secs * tps)%Z.
 
+(** A retained delta at index [i] (0 = newest) is protected from truncation by number and age. *)
+Definition protected (c : cfg) (now : Z) (i : N) (d : ddata) : bool :=
+  (i <? c_min_nr c) || younger_than now (c_min_secs c) d.
+
 (** [usize] arithmetic: the release profile wraps (overflow checks off, Cargo.toml 112-113 only
     sets panic = "abort"), a build with overflow checks panics. *)
 Inductive arith : Type := Wrapping | Checked.
